@@ -627,6 +627,8 @@ fn seq_case(line: &str) -> String {
         if let Some(h) = &w.rec_hot { let _ = h.take_log(); }
         let pre_c = w.cold.snapshot();
         let pre_h = w.hot.as_ref().map(|h| h.snapshot());
+        let threads = || std::fs::read_dir("/proc/self/task").map(|d| d.count()).unwrap_or(0);
+        let threads_before = threads();
         let r = std::panic::catch_unwind(std::panic::AssertUnwindSafe(|| run_op(&mut w, &name, flag, dry, variant)));
         // An operation that failed, and a dry-run, may leave detached packer threads behind that
         // still write a pack after the call returned.  Barrier: wait until the number of threads of
@@ -635,13 +637,16 @@ fn seq_case(line: &str) -> String {
         let len = |w: &World| w.rec_cold.log.lock().unwrap().len() + w.rec_hot.as_ref().map_or(0, |h| h.log.lock().unwrap().len());
         let at_return = len(&w);
         if dry || !matches!(r, Ok(Ok(()))) {
-            let threads = || std::fs::read_dir("/proc/self/task").map(|d| d.count()).unwrap_or(0);
+            // every thread the operation spawned has exited (thread count back at the level before the
+            // call): nothing can write any more - done.  Otherwise (a thread pool grew, or a detached
+            // writer is still pending) wait until thread count and log have been quiet for 180 ms.
             let mut last = (threads(), len(&w));
             let mut stable = 0;
-            for _ in 0..150 {
+            for _ in 0..200 {
+                if last.0 <= threads_before && stable >= 1 { break; }
                 std::thread::sleep(std::time::Duration::from_millis(15));
                 let now = (threads(), len(&w));
-                if now == last { stable += 1; if stable >= 6 { break; } } else { stable = 0; last = now; }
+                if now == last { stable += 1; if stable >= 12 { break; } } else { stable = 0; last = now; }
             }
         }
         let late = len(&w) - at_return;
